@@ -201,7 +201,7 @@ class Explorer:
             return True
         if z3.is_false(expr):
             return False
-        h = _sig(raw, 3)  # signature of the un-simplified term: the simplifier orders AC arguments by AST id
+        h = _sig(raw, 2)  # signature of the un-simplified term: the simplifier orders AC arguments by AST id
         if self._pos < len(self._prefix):
             d = self._prefix[self._pos]
             if self._hashes[self._pos] != h:
@@ -245,8 +245,8 @@ def _sig(e, depth):
     n = e.num_args()
     if n == 0 or depth == 0:
         return (d.name(), n)
-    if n > 6:
-        return (d.name(), n, _sig(e.arg(0), depth - 1), _sig(e.arg(n - 1), depth - 1))
+    if n > 3:
+        return (d.name(), n, _sig(e.arg(0), 0))
     return (d.name(), n) + tuple(_sig(e.arg(i), depth - 1) for i in range(n))
 
 
